@@ -423,6 +423,33 @@ example : gOfLex .gYear true "-0045+02:00".toList = .ok ⟨-46, 1, 1, 0, some 12
     gOfLex .gYear false "2000-05:00".toList = .ok ⟨2000, 1, 1, 0, some (-300)⟩ ∧
     fmtG .gYearMonth true ⟨-46, 3, 1, 0, none⟩ = "-0045-03".toList := by decide
 
+/-- **every value the constructor returns is well formed** — for *any* arguments: if `AbstractDateTime.__init__` succeeds
+(timezone within ±14:00) the value has a non-zero year of magnitude ≤ 2^31, a real calendar date of its proleptic
+Gregorian year and a time inside the day.  (The hypotheses of the other theorems, `v.Valid`, are therefore satisfied by
+everything the library can construct.) -/
+theorem ctor_result_valid (y m d h mi s us : Int) (tz : Option Int) (w : DT) (htz : TzOk tz)
+    (hw : mk y m d h mi s us tz = .ok w) : w.Valid ∧ w.year.natAbs ≤ 2 ^ 31 :=
+  mk_valid y m d h mi s us tz w htz hw
+
+/-- the timezone group of the patterns only yields offsets within ±14:00 (structural proof over all strings) -/
+theorem tz_group_range (s : List Char) (z : Int) (h : EPV.CalLex.tzParse s = some z) : -840 ≤ z ∧ z ≤ 840 :=
+  tzParse_range s z h
+
+/-- **canonicalisation is idempotent — no hypothesis on the literal**: whatever string `fromstring` accepts (any white
+space, any number of year and fraction digits, `24:00:00`, any timezone, either XSD version), the string form of the value
+it returns is read back to exactly that value: `fromstring(str(fromstring(s))) = fromstring(s)`, for xs:dateTime,
+xs:date and xs:time. -/
+theorem canonical_string_fixed_point (v11 : Bool) (s : List Char) (v : DT) :
+    (dateTimeOfLex v11 s = .ok v → dateTimeOfLex v11 (fmtDateTime v11 v) = .ok v) ∧
+    (dateOfLex v11 s = .ok v → dateOfLex v11 (fmtDate v11 v) = .ok v) ∧
+    (timeOfLex s = .ok v → timeOfLex (fmtTime v) = .ok v) :=
+  ⟨dateTime_canonical_fixed_point v11 s v, date_canonical_fixed_point v11 s v, time_canonical_fixed_point s v⟩
+
+/-- test (literals): a non-canonical literal (white space, long fraction, 24:00:00) and its canonical form -/
+example : dateTimeOfLex true " 12345-12-31T24:00:00.000-00:00 ".toList = .ok ⟨12346, 1, 1, 0, some 0⟩ ∧
+    fmtDateTime true ⟨12346, 1, 1, 0, some 0⟩ = "12346-01-01T00:00:00Z".toList ∧
+    dateTimeOfLex true "12346-01-01T00:00:00Z".toList = .ok ⟨12346, 1, 1, 0, some 0⟩ := by decide
+
 /-- **lexical → components → canonical string**: a literal whose fields are a real calendar date and a time of day
 is read by `fromstring` into exactly the value `components_roundtrip` describes — here for the canonical
 literal of a value: reading it and building the value from its own fields is the same thing. -/
